@@ -525,6 +525,18 @@ theorem exec_inv : ∀ (f : Nat) (s : St) (w : Who) (p : List Instr), Inv s → 
       | handleClosed => simp only [exec]; exact ih _ _ _ (inv_congr s _ h rfl rfl rfl rfl rfl rfl rfl)
       | canReadSet => simp only [exec]; exact ih _ _ _ (inv_release s h)
       | yield => simp only [exec]; exact inv_congr s _ h rfl rfl rfl rfl rfl rfl rfl
+      | drain i =>
+        simp only [exec]
+        split
+        · exact inv_congr s _ h rfl rfl rfl rfl rfl rfl rfl
+        · exact inv_congr s _ h rfl rfl rfl rfl rfl rfl rfl
+      | h2buffer i =>
+        simp only [exec]
+        refine ih _ _ _ ?_
+        split
+        · exact inv_setInst s i _ h (iok_of_fields (s.inst i) _ (h.inst i) rfl rfl rfl rfl rfl rfl rfl rfl rfl rfl rfl rfl) (by simp [Inst.busy]) (by simp)
+        · exact h
+      | releaseDrains only => simp only [exec]; exact ih _ _ _ (inv_congr s _ h rfl rfl rfl rfl rfl rfl rfl)
       | write =>
         simp only [exec]
         split
@@ -534,7 +546,9 @@ theorem exec_inv : ∀ (f : Nat) (s : St) (w : Who) (p : List Instr), Inv s → 
         simp only [exec]
         split
         · exact ih _ _ _ (inv_emit _ _ h)
-        · exact ih _ _ _ (inv_emit _ _ h)
+        · split
+          · exact ih _ _ _ (inv_emit _ _ (inv_congr s _ h rfl rfl rfl rfl rfl rfl rfl))
+          · exact ih _ _ _ (inv_emit _ _ (inv_congr s _ h rfl rfl rfl rfl rfl rfl rfl))
       | serverClose =>
         simp only [exec]
         split
@@ -560,8 +574,11 @@ theorem exec_inv : ∀ (f : Nat) (s : St) (w : Who) (p : List Instr), Inv s → 
         split
         · rename_i hk; exact ih _ _ _ (inv_wsAccess s i st h (by simpa using hk))
         · exact ih _ _ _ h
-      | httpEnd i st =>
+      | stateClosedEarly i err =>
         simp only [exec]
+        cases err <;> simp only [httpSendsBeforeStateClosedError, httpSendsBeforeStateClosedClosed, if_true, Bool.false_eq_true, if_false] <;> exact ih _ _ _ h
+      | httpEnd i st =>
+        simp only [exec, httpSendsBeforeStateClosedError, httpSendsBeforeStateClosedClosed, Bool.and_self, Bool.not_true, Bool.not_false, Bool.and_true]
         split
         · exact ih _ _ _ h
         · rename_i hg
@@ -815,6 +832,8 @@ theorem step_inv (s s' : St) (o : Op) (h : Inv s) (hs : step s o = some s') : In
     simp only [step] at hs; split at hs <;> simp at hs; subst hs
     exact run_inv' _ _ _ (inv_setInst s i _ h (iok_of_fields (s.inst i) _ (h.inst i) rfl rfl rfl rfl rfl rfl rfl rfl rfl rfl rfl rfl) (by simp [Inst.busy]) (by simp))
   | failWrites => simp only [step] at hs; simp at hs; subst hs; exact inv_congr s _ h rfl rfl rfl rfl rfl rfl rfl
+  | failAfter k => simp only [step] at hs; simp at hs; subst hs; exact inv_congr s _ h rfl rfl rfl rfl rfl rfl rfl
+  | h2NoCredit => simp only [step] at hs; simp at hs; subst hs; exact inv_congr s _ h rfl rfl rfl rfl rfl rfl rfl
   | terminate => simp only [step] at hs; simp at hs; subst hs; exact inv_congr s _ h rfl rfl rfl rfl rfl rfl rfl
   | tick d =>
     simp only [step] at hs
